@@ -137,3 +137,25 @@ package store
 //@   ensures [auto] (retErr == nil && lv0 == proto.ConsistencyLevel_AUTO) ==> level == ite(voter, proto.ConsistencyLevel_WEAK, proto.ConsistencyLevel_NONE)
 //@   ensures [level-kept] (retErr == nil && lv0 != proto.ConsistencyLevel_AUTO && lv0 != proto.ConsistencyLevel_LINEARIZABLE) ==> level == lv0
 //@   ensures [lin-or-strong] (retErr == nil && lv0 == proto.ConsistencyLevel_LINEARIZABLE) ==> (level == proto.ConsistencyLevel_LINEARIZABLE || level == proto.ConsistencyLevel_STRONG)
+//
+// ---- C29: the flag and bytes written to the log are the ones the marshaler returned ------------
+//@ func (*Store) tryCompress
+//@   requires [built] s != nil && s.reqMarshaller != nil
+//@   ghost var mb slice = nilslice
+//@   ghost var mc bool = false
+//@   ghost var me error = nil
+//@   ghost update @s.reqMarshaller.Marshal: mb = result0
+//@   ghost update @s.reqMarshaller.Marshal: mc = result1
+//@   ghost update @s.reqMarshaller.Marshal: me = result2
+//@   assert @s.reqMarshaller.Marshal: [same-request] arg0 == rq
+//@   ensures [verbatim] (result2 == nil) ==> (me == nil && result0 == mb && result1 == mc)
+//@   ensures [error] me != nil ==> result2 != nil
+//
+//@ func (*Store) execute
+//@   requires [built] s != nil && s.reqMarshaller != nil
+//@   ghost var cb slice = nilslice
+//@   ghost var cc bool = false
+//@   ghost update @s.tryCompress: cb = result0
+//@   ghost update @s.tryCompress: cc = result1
+//@   assert @s.tryCompress: [same-request] arg0 == ex
+//@   assert @command.Marshal: [command-shape] arg0 != nil && arg0.Type == proto.Command_COMMAND_TYPE_EXECUTE && arg0.SubCommand == cb && arg0.Compressed == cc
